@@ -681,6 +681,65 @@ def _const_display(e):
     return isinstance(e, (ast.Tuple, ast.List)) and 1 <= len(e.elts) <= _UNROLL_MAX_ITEMS and all(_const_item(x) for x in e.elts)
 
 
+def _int_value(e, consts):
+    """value of an integer expression built from literals, named instance constants (self.X) and + - *"""
+    if isinstance(e, ast.Constant) and type(e.value) is int:
+        return e.value
+    if isinstance(e, ast.Attribute) and isinstance(e.value, ast.Name) and e.value.id == "self" and e.attr in consts:
+        return consts[e.attr]
+    if isinstance(e, ast.UnaryOp) and isinstance(e.op, ast.USub):
+        v = _int_value(e.operand, consts)
+        return None if v is None else -v
+    if isinstance(e, ast.BinOp) and isinstance(e.op, (ast.Add, ast.Sub, ast.Mult)):
+        a, b = _int_value(e.left, consts), _int_value(e.right, consts)
+        if a is None or b is None:
+            return None
+        return a + b if isinstance(e.op, ast.Add) else a - b if isinstance(e.op, ast.Sub) else a * b
+    return None
+
+
+def _as_display(e, consts):
+    """the iterable as a display of at most 8 constant items: a display itself, or range() over integer constants"""
+    if _const_display(e):
+        return e
+    if isinstance(e, ast.Call) and isinstance(e.func, ast.Name) and e.func.id == "range" and 1 <= len(e.args) <= 3 and not e.keywords:
+        vals = [_int_value(a, consts) for a in e.args]
+        if any(v is None for v in vals) or (len(vals) == 3 and vals[2] == 0):
+            return None
+        items = list(range(*vals)) if len(range(*vals)) <= _UNROLL_MAX_ITEMS else None
+        if items:
+            return ast.copy_location(ast.Tuple(elts=[ast.copy_location(ast.Constant(value=v), e) for v in items], ctx=ast.Load()), e)
+    return None
+
+
+def instance_constants(tree):
+    """attribute name -> int for attributes stored exactly once in the module, as `self.X = <int literal>` inside a method
+    (or `X = <int literal>` in a class body, never stored as an attribute): named constants such as a maximum count"""
+    stores, vals = {}, {}
+    for n in ast.walk(tree):
+        if isinstance(n, ast.Attribute) and isinstance(n.ctx, (ast.Store, ast.Del)):
+            stores[n.attr] = stores.get(n.attr, 0) + 1
+        if isinstance(n, (ast.Assign, ast.AnnAssign, ast.AugAssign)):
+            tg = n.targets if isinstance(n, ast.Assign) else [n.target]
+            for t in tg:
+                for x in ast.walk(t):
+                    if isinstance(x, ast.Attribute) and isinstance(n, ast.Assign) and len(tg) == 1 and x is t \
+                            and isinstance(x.value, ast.Name) and x.value.id == "self" \
+                            and isinstance(n.value, ast.Constant) and type(n.value.value) is int:
+                        vals.setdefault(x.attr, []).append(n.value.value)
+    for c in ast.walk(tree):
+        if isinstance(c, ast.ClassDef):
+            for st in c.body:
+                if isinstance(st, ast.Assign) and len(st.targets) == 1 and isinstance(st.targets[0], ast.Name):
+                    nm = st.targets[0].id
+                    if isinstance(st.value, ast.Constant) and type(st.value.value) is int:
+                        vals.setdefault(nm, []).append(st.value.value)
+                        stores[nm] = stores.get(nm, 0) + 1
+                    else:
+                        stores[nm] = stores.get(nm, 0) + 2
+    return {k: v[0] for k, v in vals.items() if len(v) == 1 and stores.get(k, 0) == 1}
+
+
 def _binding(target, item):
     """loop target -> {name: constant node} for one item, or None"""
     if isinstance(target, ast.Name):
@@ -719,6 +778,49 @@ class _SubstConst(ast.NodeTransformer):
         if isinstance(n.test, ast.Constant) and isinstance(n.test.value, bool):
             return (n.body if n.test.value else n.orelse) or [ast.copy_location(ast.Pass(), n)]
         return n
+
+    # names built from a substituted constant: "operand{}".format(1), "operand%d" % 1, "operand" + str(1), f"operand{1}"
+    def visit_Call(self, n):
+        self.generic_visit(n)
+        simple = lambda x: isinstance(x, ast.Constant) and type(x.value) in (int, str)
+        if not n.keywords and n.args and all(simple(a) for a in n.args):
+            if isinstance(n.func, ast.Attribute) and n.func.attr == "format" and isinstance(n.func.value, ast.Constant) \
+                    and isinstance(n.func.value.value, str):
+                try:
+                    return ast.copy_location(ast.Constant(value=n.func.value.value.format(*[a.value for a in n.args])), n)
+                except Exception:
+                    return n
+            if isinstance(n.func, ast.Name) and n.func.id == "str" and len(n.args) == 1:
+                return ast.copy_location(ast.Constant(value=str(n.args[0].value)), n)
+        return n
+
+    def visit_BinOp(self, n):
+        self.generic_visit(n)
+        l, r = n.left, n.right
+        if isinstance(l, ast.Constant) and isinstance(l.value, str):
+            if isinstance(n.op, ast.Add) and isinstance(r, ast.Constant) and isinstance(r.value, str):
+                return ast.copy_location(ast.Constant(value=l.value + r.value), n)
+            if isinstance(n.op, ast.Mod):
+                args = r.elts if isinstance(r, ast.Tuple) else [r]
+                if all(isinstance(a, ast.Constant) and type(a.value) in (int, str) for a in args):
+                    try:
+                        return ast.copy_location(ast.Constant(value=l.value % tuple(a.value for a in args)), n)
+                    except Exception:
+                        return n
+        return n
+
+    def visit_JoinedStr(self, n):
+        self.generic_visit(n)
+        parts = []
+        for v in n.values:
+            if isinstance(v, ast.Constant) and isinstance(v.value, str):
+                parts.append(v.value)
+            elif isinstance(v, ast.FormattedValue) and v.conversion == -1 and v.format_spec is None \
+                    and isinstance(v.value, ast.Constant) and type(v.value.value) in (int, str):
+                parts.append(str(v.value.value))
+            else:
+                return n
+        return ast.copy_location(ast.Constant(value="".join(parts)), n)
 
     def visit_IfExp(self, n):
         self.generic_visit(n)
@@ -788,9 +890,10 @@ class _Unroll(ast.NodeTransformer):
     append per constant; a dict comprehension over constants without filter becomes a display; any()/all() over such a
     generator of boolean-valued tests becomes or/and."""
 
-    def __init__(self):
+    def __init__(self, consts=None):
         self.changed = False
         self.fn_stack = []
+        self.consts = consts or {}
 
     def visit_FunctionDef(self, n):
         self.fn_stack.append(n)
@@ -824,8 +927,16 @@ class _Unroll(ast.NodeTransformer):
 
     def visit_For(self, n):
         self.generic_visit(n)
-        if n.orelse or not _const_display(n.iter):
+        disp = None if n.orelse else _as_display(n.iter, self.consts)
+        if disp is None:
             return n
+        orig_iter, n.iter = n.iter, disp
+        out = self._unroll_for(n)
+        if out is n:
+            n.iter = orig_iter
+        return out
+
+    def _unroll_for(self, n):
         names = _names_in([n.target])
         if not names or _names_in(n.body, ast.Store) & names or _own_level(n.body, (ast.Break, ast.Continue)) \
                 or _captured(n.body, names) or self._read_outside(n, names):
@@ -854,7 +965,7 @@ class _Unroll(ast.NodeTransformer):
         if len(n.targets) == 1 and isinstance(n.targets[0], ast.Name) and isinstance(v, ast.ListComp) and len(v.generators) == 1:
             g = v.generators[0]
             names = _names_in([g.target])
-            if not g.is_async and _const_display(g.iter) and names and not _captured([ast.Expr(value=v.elt)] + [ast.Expr(value=c) for c in g.ifs], names) \
+            if not g.is_async and (disp := _as_display(g.iter, self.consts)) is not None and names and not _captured([ast.Expr(value=v.elt)] + [ast.Expr(value=c) for c in g.ifs], names) \
                     and n.targets[0].id not in _names_in([v]):
                 acc = n.targets[0].id
                 call = ast.Expr(value=ast.Call(func=ast.Attribute(value=ast.Name(id=acc, ctx=ast.Load()), attr="append", ctx=ast.Load()),
@@ -866,7 +977,7 @@ class _Unroll(ast.NodeTransformer):
                     st = ast.If(test=test, body=[call], orelse=[])
                 for x in ast.walk(st):
                     ast.copy_location(x, n)
-                out = self._unrolled(g.target, g.iter.elts, [st])
+                out = self._unrolled(g.target, disp.elts, [st])
                 if out is not None:
                     self.changed = True
                     first = ast.copy_location(ast.Assign(targets=n.targets, value=ast.copy_location(ast.List(elts=[], ctx=ast.Load()), n)), n)
@@ -877,9 +988,9 @@ class _Unroll(ast.NodeTransformer):
         self.generic_visit(n)
         if len(n.generators) == 1:
             g = n.generators[0]
-            if not g.is_async and not g.ifs and _const_display(g.iter) and not _captured([ast.Expr(value=n.key), ast.Expr(value=n.value)], _names_in([g.target])):
+            if not g.is_async and not g.ifs and (disp := _as_display(g.iter, self.consts)) is not None and not _captured([ast.Expr(value=n.key), ast.Expr(value=n.value)], _names_in([g.target])):
                 keys, vals = [], []
-                for it in g.iter.elts:
+                for it in disp.elts:
                     b = _binding(g.target, it)
                     if b is None:
                         return n
@@ -897,10 +1008,10 @@ class _Unroll(ast.NodeTransformer):
                 and isinstance(n.args[0], (ast.GeneratorExp, ast.ListComp)) and len(n.args[0].generators) == 1:
             ge = n.args[0]
             g = ge.generators[0]
-            if not g.is_async and not g.ifs and _const_display(g.iter) and len(g.iter.elts) >= 2 and _is_bool_valued(ge.elt) \
+            if not g.is_async and not g.ifs and (disp := _as_display(g.iter, self.consts)) is not None and len(disp.elts) >= 2 and _is_bool_valued(ge.elt) \
                     and not _captured([ast.Expr(value=ge.elt)], _names_in([g.target])):
                 vals = []
-                for it in g.iter.elts:
+                for it in disp.elts:
                     b = _binding(g.target, it)
                     if b is None:
                         return n
@@ -917,8 +1028,9 @@ def canonicalise(tree, pattern=False):
     mark_bool_contexts(tree)
     tree = _Canon(pattern).visit(tree)
     if not pattern:
+        consts = instance_constants(tree)
         for _ in range(3):
-            u = _Unroll()
+            u = _Unroll(consts)
             tree = u.visit(tree)
             if not u.changed:
                 break
